@@ -2,7 +2,7 @@
 values."""
 import ast
 
-from sa.helpers import (mkflow, spec, code, one, calls, bind_call, param_env,
+from sa.helpers import (the_return, mkflow, spec, code, one, calls, bind_call, param_env,
                         fmt, atom_of, unparse, walk_no_nested, unalloc, call_kw,
                         inline_local)
 from sa.index import AnalysisError, ClassInfo
@@ -175,7 +175,7 @@ def _run(ix, R):
                    'no _check_values call', 'profile never calls _check_values: zero opacities divide by zero', f.loc())
             raise AnalysisError('value check removed; remaining Guillot obligations not evaluated')
         cv = one(cvs, '_check_values call')
-        r = one(fl.of('return'), 'return')
+        r = the_return(fl)
         okd = not cv.guards and not cv.loops
         divs = [e for e in fl.of('assign') if e.name in ('gamma_1', 'gamma_2', 'tau')]
         okd = okd and all(fl.events.index(cv) < fl.events.index(e) for e in divs)
@@ -214,7 +214,7 @@ def _run(ix, R):
     with R.guard('3.iso', 'ALG', site, 'isothermal'):
         f = ix.func(site)
         fl = mkflow(ix, site)
-        r = one(fl.of('return'), 'return')
+        r = the_return(fl)
         rs = fl.of('reset')
         al = [e for e in fl.of('assign') if e.op is None and atom_of(fl, e.value) is not None and
               atom_of(fl, e.value).head == 'alloc']
@@ -258,7 +258,7 @@ def _run(ix, R):
     with R.guard('3.rodgers.cov', 'ALG', site, 'covariance'):
         f = ix.func(site)
         fl = mkflow(ix, site, erase_broadcast=False)
-        r = one(fl.of('return'), 'return')
+        r = the_return(fl)
         cw = Conv(fl.tab, {}, fl.canon)
         cw.erase_broadcast = False
         want = cw.parse('exp(-abs(log(self.pressure_profile[:, None]/self.pressure_profile[None, :]))/self._tp_corr_length)')
@@ -270,7 +270,7 @@ def _run(ix, R):
         f = ix.func(site)
         fl = mkflow(ix, site)
         pe = param_env(fl, f, ['C'])
-        r = one(fl.of('return'), 'return')
+        r = the_return(fl)
         want = spec(fl, '(C/np.sum(C, axis=0)).dot(self._T_layers)', pe)
         R.check('3.rodgers.w', 'ALG', site, 'profile = (C / column sums) . T_layers (rows sum to one for a symmetric C)',
                 fl.tab.equal(r.value, want), key=fmt(fl, r.value), detail=fmt(fl, r.value), loc=f.loc(r.node))
@@ -330,7 +330,7 @@ def _run(ix, R):
         f = ix.func(site)
         fl = mkflow(ix, site)
         pe = param_env(fl, f, ['a', 'n'])
-        r = one(fl.of('return'), 'return')
+        r = the_return(fl)
         why = []
         cs = spec(fl, 'cumsum(a)', pe)
         if fl.tab.equal(r.value, spec(fl, 'cumsum(a)[n - 1:]/n', pe)):
